@@ -17,14 +17,14 @@ func GenerateClassTarget(variable string, class string, iriExpander *misc.IriExp
 		classIri = class
 	}
 
-	rego := fmt.Sprintf("target_class[%s] with data.class as \"%s\"", variable, classIri)
+	rego := fmt.Sprintf("target_class[%s] with data.class as \"%s\"", variable, misc.RegoStringContent(classIri))
 	return SimpleRegoResult{
 		Constraint: "classTarget",
 		Rego:       []string{rego},
 		Path:       "",
 		Variable:   variable,
 		TraceValue: BuildTraceValueNode(
-			fmt.Sprintf("\"classTarget\":\"%s\"", class)),
+			fmt.Sprintf("\"classTarget\":\"%s\"", misc.RegoStringContent(class))),
 		TraceNode: variable,
 		PathRules: []RegoPathResult{},
 	}
